@@ -46,7 +46,14 @@ pub(crate) fn input_matches(mut input: Ref) -> io::Result<bool> {
 		Ref::Reader(r) => match_input_reader(r),
 	};
 	match result {
-		Err(InvalidMarkerRead(err) | InvalidDataRead(err)) => Err(err),
+		// rmp_serde reports running out of input as an UnexpectedEof "I/O error"
+		// even when the source itself never failed; that only means the input
+		// is not a complete MessagePack value.
+		Err(InvalidMarkerRead(err) | InvalidDataRead(err))
+			if err.kind() != io::ErrorKind::UnexpectedEof =>
+		{
+			Err(err)
+		}
 		Err(_) => Ok(false),
 		Ok(()) => Ok(true),
 	}
